@@ -6,6 +6,8 @@ CONSTANTS
   ExtSets = {"none", "default", "all", "allrev"}
   IdKinds = {"fresh", "dup", "empty", "pending"}
   Peers = {"OwnBare", "OwnFullSelf", "OwnFullOther", "Domain", "Contact", "ContactBare"}
+  Deferred = TRUE
+  MaxHosts = 2
   MaxHist = 99
 INVARIANT Done
 CHECK_DEADLOCK FALSE
